@@ -77,4 +77,15 @@ func init() {
 		{Name: "set-clears-deleted-conditionally", File: "graph/properties.go", Old: "\tif s.Deleted != nil {\n\t\tdelete(s.Deleted, key)\n\t}\n\n\treturn s\n}\n\nfunc (s *Properties) SetAll", New: "\tif s.Deleted != nil && value != nil {\n\t\tdelete(s.Deleted, key)\n\t}\n\n\treturn s\n}\n\nfunc (s *Properties) SetAll", Expect: "C12-R1-effect-summary|Properties.Set"},
 		{Name: "set-wipes-modified", File: "graph/properties.go", Old: "\t} else {\n\t\ts.Modified[key] = struct{}{}\n\t}\n", New: "\t} else {\n\t\ts.Modified = map[string]struct{}{key: {}}\n\t}\n", Expect: "C12-R2-frame|Properties.Set"},
 	}
+	mutations["C17"] = []Mutation{
+		{Name: "submit-before-increment", File: "traversal/traversal.go", Old: "\t\t\t\t\t\t\t\tdescentCount.Add(1)\n\t\t\t\t\t\t\t\tchannels.Submit(traversalCtx, segmentWriterC, descendingSegment)", New: "\t\t\t\t\t\t\t\tchannels.Submit(traversalCtx, segmentWriterC, descendingSegment)\n\t\t\t\t\t\t\t\tdescentCount.Add(1)", Expect: "C17-R1-termination|BreadthFirst:submit"},
+		{Name: "decrement-before-expand", File: "traversal/traversal.go", Old: "\t\t\t\tfor {\n\t\t\t\t\tif nextDescent, ok := channels.Receive(traversalCtx, segmentReaderC); !ok {", New: "\t\t\t\tfor {\n\t\t\t\t\tdescentCount.Add(-1)\n\t\t\t\t\tif nextDescent, ok := channels.Receive(traversalCtx, segmentReaderC); !ok {", Expect: "C17-R1-termination|BreadthFirst:decrement"},
+		{Name: "coordinator-ignores-close", File: "traversal/traversal.go", Old: "; !ok || descentCount.Load() == 0 {", New: "; descentCount.Load() == 0 && ok {", Expect: "C17-R1-termination|BreadthFirst:coordinator-exit"},
+		{Name: "no-wait", File: "traversal/traversal.go", Old: "\t// Wait for all workers to exit\n\tworkerWG.Wait()\n", New: "", Expect: "C17-R2-join-cancel|BreadthFirst:join"},
+		{Name: "worker-error-not-cancelling", File: "traversal/traversal.go", Old: "\t\t\t\t// A worker encountered a fatal error, kill the traversal context\n\t\t\t\tdoneFunc()\n", New: "", Expect: "C17-R2-join-cancel|BreadthFirst:go#1:error-path"},
+		{Name: "pipe-pops-wrong-end", File: "util/channels/pipe.go", Old: "\t\t\tcase getReaderC() <- getNext():\n\t\t\t\tbuffer.PopFront()", New: "\t\t\tcase getReaderC() <- getNext():\n\t\t\t\tbuffer.PopBack()", Expect: "C17-R3-pipe|BufferedPipe:fifo-ends"},
+		{Name: "pipe-flush-no-ctx", File: "util/channels/pipe.go", Old: "\t\t\tselect {\n\t\t\tcase <-ctx.Done():\n\t\t\t\t// If the context was canceled, exit right away\n\t\t\t\treturn\n\n\t\t\tcase readerC <- buffer.Front():", New: "\t\t\tselect {\n\t\t\tcase readerC <- buffer.Front():", Expect: "C17-R3-pipe|BufferedPipe:flush:ctx-done"},
+		{Name: "pipe-no-close", File: "util/channels/pipe.go", Old: "\t\tdefer close(readerC)\n\n", New: "", Expect: "C17-R3-pipe|BufferedPipe:close-reader"},
+		{Name: "pipe-sends-when-empty", File: "util/channels/pipe.go", Old: "\t\t\tif buffer.Len() > 0 {\n\t\t\t\treturn readerC\n\t\t\t}\n\n\t\t\treturn nil", New: "\t\t\treturn readerC", Expect: "C17-R3-pipe|BufferedPipe:nil-channel"},
+	}
 }
